@@ -8,10 +8,14 @@ TECH = "contract-based deductive verification: weakest-precondition VCs generate
 CLAIMS = {
  "C01": ("Function-modular proof, for all inputs and lengths, that the array part of a merge follows the selected policy: fields.setAt/append and the append/prepend/replace strategies satisfy sequence postconditions (A then B, B then A, B alone, empty B replaces nothing, length = sum, every stored element a fresh copy, dictionary untouched) with loop invariants and frames. Composition to whole trees is a stated induction over depth, not machine-checked.",
          "Assumes the interface contract of value.cpy (fresh copy), trusted fmt.Sprintf; self-merge (aliasing source/destination) excluded by requires; mergeValues/mergeConfigDict/dispatch not yet under contract (see evidence).", "6/C01"),
+ "C02": ("Proof of the evaluator against the statement's lookup order and operator table: resolveRef returns the value found from the root of the owning tree first, then in the Env configurations most recently added first (loop invariant over the shrinking Env list, variant), resolveEnv consults the resolvers last to first, returns the first success and fails when none succeeds; the four operators (${x}, ${x:d}, ${x:+a}, ${x:?m}) and literals are proved over named sub-evaluation outcomes; cfgDynamic.cpy keeps the unevaluated expression (late binding across Merge).",
+         "Sub-evaluations (varEvaler.eval, reference.eval/resolve, cfgPath.GetValue) are named by ghost functions of (expression or path string, configuration): assumed to be functions of these while one setting is read; the lexer/parser building the expression tree ($$ and $} escapes) and splice concatenation (bytes.Buffer) are not under contract; resolver callbacks are dynamic calls assumed not to touch library state.", "6/C02"),
  "C03": ("Bit-precise proof (64-bit vectors + IEEE-754 theory, loop-free so complete over the full domain) that the numeric conversion kernels return the exact value or an error: negative->unsigned, >MaxInt64->signed, NaN/out-of-range float->integer are errors, in-range results equal the mathematical value.",
          "Trusted: Go semantics of in-range float->int conversion (truncation), math.IsNaN contract, strconv for string sources; dispatch through reflect (doReifyPrimitive) is assumed, not proved.", "6/C03"),
  "C07": ("Proof of absence of run-time errors (index, slice, string index, nil dereference, type assertion, division, make, explicit panic) plus loop variants for the functions under contract: the flag-value scanners of parse/parse.go, the splice lexer and parseVarExp. Every obligation is generated from the SSA with zero annotation; preconditions are checked at every call site under contract.",
          "Not decided: third-party decoders, goroutine leaks/channel protocol, reflect settability, stack depth; functions not listed in the evidence are not covered.", "6/C07"),
+ "C08": ("Proof of the two safety halves: the set of references under evaluation is the fieldSet chain (recursive membership inChain proved for Has/Add/AddNew/newFieldSet); resolveRef reports a cyclic-reference error exactly when the path is already in the chain and registers it otherwise, without changing the scope pointer; reifyMap and cfgSub.reify restore opts.activeFields on every exit (deferred closure applied by contract at each return, through map-range and list loops). Termination is the stated meta-argument (finite set of paths, strictly growing chain).",
+         "Not decided: termination itself; FlattenedKeys/CompareConfigs recursion; reifyStruct/doReifyPrimitive scoping; the chain is assumed acyclic; run-time errors of reifyMap/cfgSub.reify are not claimed (norte).", "6/C08"),
  "C10": ("Frame and freshness proofs for the array side of Merge: fields.append and the array strategies write only destination locations or fresh objects (frame obligation at every store and callee frame) and every stored element is a fresh copy.",
          "Dictionary side (mergeConfigDict), cfgSub.cpy and normalizeValue re-parenting not yet under contract; induction over depth stated.", "6/C10"),
  "C14": ("Proof that every error leaving the getters, Child, Has, CountField and Remove is nil or a value whose dynamic type implements ucfg.Error (static type Error by typing; raw errors from value methods, strconv or errors.New do not satisfy it), and that the raise sites of the numeric/bool/duration conversions and of the typed getters build the error from exactly the value at fault (about(err) == val), so the message names that setting's path and source.",
